@@ -42,7 +42,11 @@ var solvers = []Solver{
 var firstWord = regexp.MustCompile(`(?m)^(unsat|sat|unknown|timeout)\s*$`)
 
 func runSolver(s Solver, file string, timeoutS int) (status string, out string, secs float64) {
-	ctx, cancel := context.WithTimeout(context.Background(), time.Duration(timeoutS+2)*time.Second)
+	return runSolverCtx(context.Background(), s, file, timeoutS)
+}
+
+func runSolverCtx(parent context.Context, s Solver, file string, timeoutS int) (status string, out string, secs float64) {
+	ctx, cancel := context.WithTimeout(parent, time.Duration(timeoutS+2)*time.Second)
 	defer cancel()
 	args := s.Cmd(file, timeoutS)
 	cmd := exec.CommandContext(ctx, args[0], args[1:]...)
@@ -142,61 +146,72 @@ func solveOneLevel(o *Obligation, prelude string, opts SolveOpts, suffix string)
 		}
 		return res
 	}
-	// stage 1: z3-new alone; stage 2: the other two in parallel
+	// portfolio: z3-new starts alone; if it has not answered after a short head start the other
+	// two solvers are raced against it. The first decisive answer (unsat / sat) wins.
 	total := 0.0
-	decide := func(status, out, solver string, secs float64) bool {
-		res.Tried = append(res.Tried, fmt.Sprintf("%s:%s:%.2fs", solver, status, secs))
-		if status == "unsat" || status == "sat" {
-			res.Status = status
-			res.Solver = solver
-			if status == "sat" {
-				if i := strings.Index(out, "sat"); i >= 0 {
-					res.Model = strings.TrimSpace(out[i+3:])
+	type ans struct {
+		st, out, name string
+		secs          float64
+	}
+	ctx, cancel := context.WithCancel(context.Background())
+	defer cancel()
+	ch := make(chan ans, len(solvers))
+	launch := func(s Solver) {
+		go func() {
+			st, out, secs := runSolverCtx(ctx, s, file, opts.TimeoutS)
+			ch <- ans{st, out, s.Name, secs}
+		}()
+	}
+	t0 := time.Now()
+	launch(solvers[0])
+	running := 1
+	launchedAll := false
+	timer := time.NewTimer(1500 * time.Millisecond)
+	defer timer.Stop()
+	done := false
+	var last ans
+	for running > 0 && !done {
+		select {
+		case a := <-ch:
+			running--
+			last = a
+			res.Tried = append(res.Tried, fmt.Sprintf("%s:%s:%.2fs", a.name, a.st, a.secs))
+			if a.st == "unsat" || a.st == "sat" {
+				res.Status = a.st
+				res.Solver = a.name
+				if a.st == "sat" {
+					if i := strings.Index(a.out, "sat"); i >= 0 {
+						res.Model = strings.TrimSpace(a.out[i+3:])
+					}
+				}
+				done = true
+			} else if !launchedAll {
+				launchedAll = true
+				for _, s := range solvers[1:] {
+					launch(s)
+					running++
 				}
 			}
-			return true
+		case <-timer.C:
+			if !launchedAll {
+				launchedAll = true
+				for _, s := range solvers[1:] {
+					launch(s)
+					running++
+				}
+			}
 		}
-		return false
 	}
-	st, out, secs := runSolver(solvers[0], file, opts.TimeoutS)
-	total += secs
-	done := decide(st, out, solvers[0].Name, secs)
+	cancel()
+	total = time.Since(t0).Seconds()
 	if !done {
-		type r struct {
-			st, out, name string
-			secs          float64
+		res.Status = "unknown"
+		if strings.Contains(strings.Join(res.Tried, " "), "timeout") {
+			res.Status = "timeout"
 		}
-		ch := make(chan r, 2)
-		for _, s := range solvers[1:] {
-			go func(s Solver) {
-				st, out, secs := runSolver(s, file, opts.TimeoutS)
-				ch <- r{st, out, s.Name, secs}
-			}(s)
-		}
-		var last r
-		for k := 0; k < 2; k++ {
-			x := <-ch
-			last = x
-			if x.secs > secs {
-				secs = x.secs
-			}
-			if !done && decide(x.st, x.out, x.name, x.secs) {
-				done = true
-			} else if !done {
-				res.Tried = append(res.Tried[:len(res.Tried)], "")
-				res.Tried = res.Tried[:len(res.Tried)-1]
-			}
-		}
-		total += secs
-		if !done {
-			res.Status = "unknown"
-			if strings.Contains(strings.Join(res.Tried, " "), "timeout") {
-				res.Status = "timeout"
-			}
-			res.Output = last.out
-			if len(res.Output) > 2000 {
-				res.Output = res.Output[:2000]
-			}
+		res.Output = last.out
+		if len(res.Output) > 2000 {
+			res.Output = res.Output[:2000]
 		}
 	}
 	if opts.TwoSolver && res.Status == "unsat" {
